@@ -22,10 +22,23 @@ def prop(pid, **kw):
 
 
 def select(pid, tier, seed):
+    """thorough: everything. quick: the quick units plus, for every rotation pool, the pool's mandatory units and
+    `pool_pick` further ones chosen by VERIF_SEED (the seed rotates coverage, it never decides a property)."""
+    import random
     us = PROPS[pid]["units"]
     if tier == "thorough":
         return list(us)
-    return [u for u in us if u["tier"] == "quick"]
+    out = [u for u in us if u["tier"] == "quick" and not u.get("pool")]
+    pools = {}
+    for u in us:
+        if u.get("pool"):
+            pools.setdefault(u["pool"], []).append(u)
+    for name, members in pools.items():
+        must = [u for u in members if u.get("pool_must")]
+        rest = [u for u in members if not u.get("pool_must")]
+        k = min(len(rest), members[0].get("pool_pick", 4))
+        out += must + random.Random("%s-%s-%d" % (pid, name, seed)).sample(rest, k)
+    return out
 
 
 COMMON_K_ASSUME = [
@@ -197,7 +210,7 @@ for (bs, nb, kicks, tier) in [(2, 2, 2, "quick"), (2, 2, 4, "quick"), (2, 4, 2, 
 for pat in range(16):
     p["units"].append(M("ck_union_bs2nb2k1_b%x" % pat, "quick", "a.union(&b), b's occupied slots = pattern %s: Err => a observationally unchanged; Ok => counts add; b unchanged" % format(pat, "04b"),
                         "4+4 slots, <=1 kick", model="cuckoo", op="union", bs=2, nb=2, kicks=1, b_mask=pat, timeout_s=3600,
-                        need_witness=(["err"] if bin(pat).count("1") >= 1 else ["ok"])))
+                        need_witness=(["err"] if bin(pat).count("1") >= 1 else ["ok"]), pool="cku", pool_pick=4, pool_must=(pat in (0xf, 0x6))))
 for pat in range(16):
     p["units"].append(M("ck_union_bs2nb2k2_b%x" % pat, "thorough", "union, <=2 kicks, pattern %s" % format(pat, "04b"), "4+4 slots, <=2 kicks",
                         model="cuckoo", op="union", bs=2, nb=2, kicks=2, b_mask=pat, timeout_s=7200))
@@ -310,7 +323,7 @@ p["units"].append(M("compat_hashset", "quick", "HashSet as Filter: query is cont
 p = prop("C06", engine="kani+mir2smt",
          technique="bounded model checking (Kani/CBMC) of homomorphism lemmas on arbitrary states (Bloom, CMS, HLL, QF 2 slots); symbolic execution of the MIR into SMT for the cuckoo filter",
          functions=["BloomFilter::{union,insert}", "CountMinSketch::{merge,add_n}", "HyperLogLog::{merge,add_hashed}", "QuotientFilter::union", "CuckooFilter::union"],
-         bounds={"quick": "Bloom (7,3),(1,1),(64,2); CMS (3,2),(2,3),(1,1) u8; HLL b=4; QF union (1,2) both operands arbitrary; cuckoo union 4+4 slots chains <=1 (all 16 occupancy patterns of other)",
+         bounds={"quick": "Bloom (7,3),(1,1),(64,2); CMS (3,2),(2,3),(1,1) u8; HLL b=4; QF union (1,2) both operands arbitrary; cuckoo union 4+4 slots chains <=1 (6 of 16 occupancy patterns of other per run, rotated by VERIF_SEED; all in thorough); QF union at (2,2) for 6 of 70 shapes of other per run (all in thorough)",
                  "thorough": "adds Bloom (130,2), CMS wider counters, QF (1,1), cuckoo chains <=2"},
          outside=["QF union on 4 slots", "cuckoo union on more than 4 slots"],
          assumptions=COMMON_K_ASSUME + QF_ASSUME[-2:] + M_ASSUME[:5] + ["algebraic decomposition: merge = cell-wise OR / sum / max and add = merge with the singleton structure, all observers are functions of the raw state => stream-equivalence, commutativity, associativity, idempotence"])
@@ -329,7 +342,8 @@ p["units"] += [
 ]
 for pat in range(16):
     p["units"].append(M("ck_union_bs2nb2k1_b%x" % pat, "quick", "cuckoo a.union(&b), b's occupancy pattern %s: Ok => len adds, every class count adds, b unchanged" % format(pat, "04b"),
-                        "4+4 slots, <=1 kick", model="cuckoo", op="union", bs=2, nb=2, kicks=1, b_mask=pat, timeout_s=3600, need_witness=(["ok"] if pat == 0 else [])))
+                        "4+4 slots, <=1 kick", model="cuckoo", op="union", bs=2, nb=2, kicks=1, b_mask=pat, timeout_s=3600, need_witness=(["ok"] if pat == 0 else []),
+                        pool="cku", pool_pick=4, pool_must=(pat in (0xf, 0x6))))
 for pat in range(16):
     p["units"].append(M("ck_union_bs2nb2k2_b%x" % pat, "thorough", "cuckoo union, <=2 kicks, pattern %s" % format(pat, "04b"), "4+4 slots, <=2 kicks", model="cuckoo", op="union", bs=2, nb=2, kicks=2, b_mask=pat, timeout_s=7200))
 
@@ -391,3 +405,35 @@ p["units"] += [
     K("h_sizing::sizing_qf_quotient_remainder_kernel", "quick", "QF quotient/remainder = split of the low q+r hash bits", "q<=7, all r", mem_class_gb=6, timeout_s=2400),
     K("h_cuckoo::ck_fingerprint_kernel", "quick", "cuckoo fingerprint in [1, 2^l-1], buckets in range, alternate bucket is an involution", "l in [2,64], n_buckets <= 2^20", mem_class_gb=6, timeout_s=2400),
 ]
+
+
+# --------------------------------------------------------------------------- engine-M quotient filter units
+import itertools as _it
+
+
+def _qf_shapes(nq=4, maxn=4):
+    return [list(c) for c in _it.product(range(maxn + 1), repeat=nq) if sum(c) <= maxn]
+
+
+QF_M_ASSUME = ["engine M on the MIR of QuotientFilter::{insert_internal,union,scan,incr,decr} and ScanResult::{has_run,at_start_of_run}: FixedBitSet = vector of Booleans, IntVector = array, VecDeque = finite sequence; "
+               "self = enc(X) for a fully symbolic member set; for union the other operand is fixed to a shape (members per quotient, which fixes its metadata bits and union's own control flow) with symbolic remainders — all 70 shapes at 4 slots are enumerated in the thorough tier, the quick tier takes the wrapping three-run cluster plus VERIF_SEED-rotated ones"]
+for pid_ in ("C06", "C12"):
+    P_ = PROPS[pid_]
+    P_["assumptions"] = P_["assumptions"] + QF_M_ASSUME
+    for sh in _qf_shapes():
+        name = "qf_union_q2r2_s" + "".join(map(str, sh))
+        P_["units"].append(M(name, "quick", "QF union at 4 slots, other's shape %s: Ok iff |X u Y| <= 4, state = enc(X u Y) / unchanged on Err (failure at every transfer position is its own path), other untouched" % sh,
+                             "(2,2) shape %s" % sh, model="qf", op="union", bq=2, br=2, shape=sh, timeout_s=3600, pool="qfu", pool_pick=5, pool_must=(sh == [0, 2, 1, 1])))
+P_ = PROPS["C13"]
+P_["assumptions"] = P_["assumptions"] + QF_M_ASSUME
+P_["units"] += [
+    M("qf_insert_q2r2_m", "thorough", "engine M cross-check of the (2,2) insert statement (must agree with the Kani verdict)", "(2,2)", model="qf", op="insert", bq=2, br=2, timeout_s=3600, need_witness=["ret", "err_full", "ok_new_into_nearly_full"]),
+    M("qf_insert_q3r1_m", "thorough", "insert vs enc at 8 slots", "(3,1)", model="qf", op="insert", bq=3, br=1, timeout_s=7200, need_witness=["ret", "err_full"], mem_gb=24),
+    M("qf_insert_q3r2_m", "thorough", "insert vs enc at 8 slots", "(3,2)", model="qf", op="insert", bq=3, br=2, timeout_s=10800, need_witness=["ret", "err_full"], mem_gb=24),
+]
+
+
+# translator validation of the cuckoo encoding on every run of the properties that rest on it
+for pid_ in ("C14", "C12", "C01", "C06"):
+    PROPS[pid_]["units"].append(M("ck_translator_validation", "quick", "24 VERIF_SEED-driven concrete cases (state, element, hash function, RNG script) through the real crate and through the encoding: results and post-states must agree",
+                                  "4 slots, 2 kicks", model="cuckoo", op="validate", bs=2, nb=2, kicks=2, n=24, need_witness=["cases_agree"]))
